@@ -20,6 +20,7 @@ func init() {
 			"PV-ROLE drop/keep value matchers are built in the label flavour; LP-ERRPATH for every stage that flags __error__",
 			"LP-PIPE entryIterator.Next: nothing but the filters' verdicts removes a record",
 			"PV-API JSON integers are not converted through float64; Docker labels are stored under KeyToLabel(key); no unsafe.String",
+			"PV-FRESH JSON path stack per line; FE-BOOL IsInstant",
 		},
 		NotDecided: []string{"'in time order' across streams depends on the storage delivering records in time order (C04)", "count equality with the number of matches is C01"},
 		Rules: func(r *Run) {
@@ -42,6 +43,8 @@ func init() {
 			ruleJSONIntegersExact(r)
 			ruleSanitiserSites(r) // the selector and the records name a container label the same way
 			ruleNoUnsafeStrings(r, []string{enginePkg, dockerlogPkg})
+			ruleJSONPathStateFresh(r)
+			ruleIsInstant(r)
 		},
 	})
 }
